@@ -1,1 +1,4 @@
 import Proofs.LB
+import Proofs.GossipLocal
+import Proofs.Mgr
+import Proofs.MgrSpec
